@@ -5,18 +5,121 @@ package main
 // reached by a callee. A call that forgets heap cells (modifies *, static write set, no contract) therefore leaves the
 // cells of such objects as they are.
 
-import "strings"
+import (
+	"go/ast"
+	"fmt"
+	"os"
+	"go/types"
+	"strings"
+)
 
-// escapeIn: every private reference mentioned by the term has left the unit's locals.
+// escapeIn: every private reference the term can evaluate to (or carry) has left the unit's locals. A heap read
+// `(select H i)` cannot yield a private reference: a private reference is by definition not stored in the heap, and
+// occurrences inside the read's own array/index sub-terms are only addresses read through.
 func (ex *Exec) escapeIn(p *Path, term string) {
 	if len(p.private) == 0 {
 		return
 	}
+	hit := false
 	for r := range p.private {
 		if strings.Contains(term, r) {
-			delete(p.private, r)
+			hit = true
+			break
 		}
 	}
+	if !hit {
+		return
+	}
+	for _, a := range carriedAtoms(term) {
+		if p.private[a] {
+			delete(p.private, a)
+		}
+	}
+}
+
+// carriedAtoms lists the atoms of an SMT term outside of `(select ...)` sub-terms.
+func carriedAtoms(t string) []string {
+	var out []string
+	i, n := 0, len(t)
+	var walk func(skip bool)
+	readAtom := func() string {
+		st := i
+		if t[i] == '|' {
+			i++
+			for i < n && t[i] != '|' {
+				i++
+			}
+			i++
+			return t[st:i]
+		}
+		if t[i] == '"' {
+			i++
+			for i < n {
+				if t[i] == '"' {
+					if i+1 < n && t[i+1] == '"' {
+						i += 2
+						continue
+					}
+					break
+				}
+				i++
+			}
+			i++
+			return t[st:i]
+		}
+		for i < n && t[i] != ' ' && t[i] != '(' && t[i] != ')' {
+			i++
+		}
+		return t[st:i]
+	}
+	walk = func(skip bool) {
+		// at '(' : read head, then children
+		i++ // consume '('
+		for i < n && t[i] == ' ' {
+			i++
+		}
+		head := ""
+		if i < n && t[i] != '(' && t[i] != ')' {
+			head = readAtom()
+		}
+		sk := skip || head == "select"
+		for i < n {
+			for i < n && t[i] == ' ' {
+				i++
+			}
+			if i >= n {
+				return
+			}
+			if t[i] == ')' {
+				i++
+				return
+			}
+			if t[i] == '(' {
+				walk(sk)
+				continue
+			}
+			a := readAtom()
+			if !sk {
+				out = append(out, a)
+			}
+		}
+	}
+	for i < n {
+		for i < n && t[i] == ' ' {
+			i++
+		}
+		if i >= n {
+			break
+		}
+		if t[i] == '(' {
+			walk(false)
+		} else if t[i] == ')' {
+			i++
+		} else {
+			out = append(out, readAtom())
+		}
+	}
+	return out
 }
 
 func (ex *Exec) escapeArgs(p *Path, recv *Value, args []Value) {
@@ -34,6 +137,9 @@ func (ex *Exec) escapeArgs(p *Path, recv *Value, args []Value) {
 // keepPrivate records the cells of the private objects; the returned function re-asserts them on the heap as it is
 // after the callee's writes were forgotten.
 func (ex *Exec) keepPrivate(p *Path) func() {
+	if os.Getenv("GOVC_DEBUG_PRIVATE") != "" {
+		fmt.Fprintln(os.Stderr, "keepPrivate:", ex.funcKey, "private:", len(p.private), p.private, "noPrivate:", p.noPrivate)
+	}
 	if len(p.private) == 0 || p.noPrivate {
 		return func() {}
 	}
@@ -48,6 +154,14 @@ func (ex *Exec) keepPrivate(p *Path) func() {
 			continue
 		}
 		for r := range p.private {
+			// only the cells the object can have: fields of its own struct type, or a deref cell
+			hint := strings.TrimPrefix(strings.Trim(r, "|"), "new:")
+			if i := strings.LastIndex(hint, "!"); i >= 0 {
+				hint = hint[:i]
+			}
+			if !strings.HasPrefix(strings.TrimPrefix(k, "~"), "deref:") && !strings.Contains(k, "."+hint+".") {
+				continue
+			}
 			cells = append(cells, cell{k, r, "(select " + t + " " + r + ")", s})
 		}
 	}
@@ -60,6 +174,9 @@ func (ex *Exec) keepPrivate(p *Path) func() {
 			if !ok {
 				es := strings.TrimSuffix(strings.TrimPrefix(c.sort, "(Array Ref "), ")")
 				cur = ex.heapArr(p, c.key, es)
+				if cur != "" {
+					p.heap[c.key] = cur // keep the key materialised: the next havoc must see the cell again
+				}
 			}
 			if cur == "" {
 				continue
@@ -67,4 +184,108 @@ func (ex *Exec) keepPrivate(p *Path) func() {
 			p.Assume("(= (select " + cur + " " + c.ref + ") " + c.old + ")")
 		}
 	}
+}
+
+// libraryDecoderTarget: for a call of a library decoder (Unmarshal, Decode, ...) whose target argument is an object the
+// unit has just created with an empty composite literal and not let out of its locals, the reference of that object.
+// Such a decoder can write nothing but that object: everything it can reach starts at its target.
+func (ex *Exec) libraryDecoderTarget(p *Path, fn *types.Func, args []Value) string {
+	if fn == nil || fn.Pkg() == nil || ex.w.IsRepoFunc(fn) || len(args) == 0 || p.noPrivate {
+		return ""
+	}
+	switch fn.Name() {
+	case "Unmarshal", "UnmarshalJSON", "Decode":
+	default:
+		return ""
+	}
+	target := args[len(args)-1].T
+	found := ""
+	for r := range p.private {
+		if strings.Contains(target, r) {
+			if found != "" {
+				return ""
+			}
+			found = r
+		}
+	}
+	if found == "" || !p.blank[found] {
+		return ""
+	}
+	// no other argument may mention a private object
+	for _, a := range args[:len(args)-1] {
+		for r := range p.private {
+			if strings.Contains(a.T, r) {
+				return ""
+			}
+		}
+	}
+	return found
+}
+
+// pointHavoc forgets the cells of one object only.
+func (ex *Exec) pointHavoc(p *Path, ref string) {
+	ex.c.Trust("a library decoder writes only what is reachable from its target; a target created by an empty composite literal in the calling function reaches nothing older")
+	for k, t := range p.heap {
+		if !ex.isMutableKey(k) {
+			continue
+		}
+		s := ex.sortOfHeapTerm(t)
+		if s == "" || !strings.HasPrefix(s, "(Array Ref ") {
+			continue
+		}
+		es := strings.TrimSuffix(strings.TrimPrefix(s, "(Array Ref "), ")")
+		v := ex.c.Fresh("dec:"+k, es)
+		p.heap[k] = "(store " + t + " " + ref + " " + v + ")"
+	}
+}
+
+// keepPrivateLoop: a loop body reaches a private object only through a variable it mentions. Objects that no variable
+// mentioned in the body carries at the loop head (in an inlined callee: no variable at all, its body sees only its own
+// locals) keep their cells across the loop's heap havoc.
+func (ex *Exec) keepPrivateLoop(p *Path, body ast.Node) func() {
+	if len(p.private) == 0 || p.noPrivate || body == nil || ex.info == nil {
+		return func() {}
+	}
+	reach := map[string]bool{}
+	ast.Inspect(body, func(n ast.Node) bool {
+		if _, isLit := n.(*ast.FuncLit); isLit {
+			for r := range p.private {
+				reach[r] = true
+			}
+			return false
+		}
+		id, ok := n.(*ast.Ident)
+		if !ok {
+			return true
+		}
+		obj, _ := ex.info.Uses[id].(*types.Var)
+		if obj == nil {
+			return true
+		}
+		if v, ok := p.vars[obj]; ok {
+			for _, a := range carriedAtoms(v.T) {
+				if p.private[a] {
+					reach[a] = true
+				}
+			}
+		}
+		if c, ok := p.cells[obj]; ok && p.private[c] {
+			reach[c] = true
+		}
+		return true
+	})
+	saved := p.private
+	kept := map[string]bool{}
+	for r := range p.private {
+		if !reach[r] {
+			kept[r] = true
+		}
+	}
+	if len(kept) == 0 {
+		return func() {}
+	}
+	p.private = kept
+	f := ex.keepPrivate(p)
+	p.private = saved
+	return f
 }
